@@ -6,6 +6,8 @@ import re
 import shutil
 import sys
 import tempfile
+import contextlib
+import io
 from io import BytesIO
 
 sys.path.insert(0, "/repo/tests")
@@ -147,6 +149,56 @@ def violates_compare(vp, pcm, pic, rng):
     return None, q
 
 
+def violates_dirs(rng):
+    """directory mode of the REAL compare tool: pictures are paired by the NUMBER in their file name (whatever the padding or
+    the rest of the name); the summary counts and the exit status follow from the pairs compared one by one"""
+    from vc2_conformance import file_format
+    from vc2_conformance.scripts.vc2_picture_compare import main
+
+    vp, pcm = rand_format(rng, False)
+    dims = dims_of(vp, pcm)
+    start = rng.choice([0, 7, 8, 9, 98])
+    k = rng.randrange(1, 5)
+    nums = [start + i for i in range(k)]
+    pics = [rand_picture(rng, dims, num=n % 7) for n in nums]
+    others, changed = [], []
+    for p in pics:
+        if rng.random() < 0.4:
+            q, counts = perturb(rng, p, dims)
+            q["pic_num"] = p["pic_num"]
+            others.append(q)
+            changed.append(sum(counts) > 0)
+        else:
+            others.append(copy.deepcopy(p))
+            changed.append(False)
+    d = tempfile.mkdtemp(prefix="c23d_")
+    try:
+        a, b = os.path.join(d, "a"), os.path.join(d, "b")
+        os.mkdir(a)
+        os.mkdir(b)
+        pa, pb = rng.choice([("picture_%d.raw", "picture_%02d.raw"), ("picture_%d.raw", "out%03d.raw"), ("p_%d.raw", "p_%d.raw")])
+        for n, p, q in zip(nums, pics, others):
+            file_format.write(p, vp, pcm, os.path.join(a, pa % n))
+            file_format.write(q, vp, pcm, os.path.join(b, pb % n))
+        out = io.StringIO()
+        with contextlib.redirect_stdout(out), contextlib.redirect_stderr(io.StringIO()):
+            try:
+                code = main([a, b])
+            except SystemExit as e:
+                code = e.code
+            except Exception as e:  # noqa
+                return "directory comparison raised %s: %s" % (type(e).__name__, str(e)[:120])
+    finally:
+        shutil.rmtree(d, ignore_errors=True)
+    want_diff = sum(changed)
+    want_code = 4 if want_diff else 0
+    m = re.search(r"Summary: (\d+) identical, (\d+) different", out.getvalue())
+    if code != want_code or not m or (int(m.group(1)), int(m.group(2))) != (k - want_diff, want_diff):
+        return ("directory comparison of %d pictures numbered %s (%s vs %s), %d of them different: exit %s, %s"
+                % (k, nums, pa, pb, want_diff, code, m.group(0) if m else "no summary"))
+    return None
+
+
 class Prop(object):
     id = "C23"
     lean_modules = ["VC2.Props.C23"]
@@ -232,12 +284,22 @@ class Prop(object):
                 self._bad = {"kind": "roundtrip", "video_parameters": {k: int(v) for k, v in vp.items()}, "pcm": int(pcm),
                              "picture": pic, "why": "file_format.read(write(p)) != p"}
         ctx.diff("ff compare_pictures exit status and differing-pixel counts: model == real", cl, ce)
+        ctx.corr_names.append("REAL compare tool in directory mode: pictures paired by number whatever the file-name padding; summary and exit status")
+        for _ in range(ctx.n(60, 600)):
+            why = violates_dirs(rng)
+            ctx.evaluations += 1
+            if why and not getattr(self, "_bad", None):
+                self._bad = {"kind": "directories", "why": why}
 
     def findings(self, ctx):
         return [self._bad] if getattr(self, "_bad", None) else []
 
     def search(self, ctx):
         rng = ctx.rng("search")
+        for _ in range(ctx.n(150, 1500)):
+            why = violates_dirs(rng)
+            if why:
+                return {"kind": "directories", "seed_note": "regenerated from the search stream", "why": why}
         for i in range(ctx.n(1200, 10000)):
             vp, pcm = rand_format(rng, True)
             dims = dims_of(vp, pcm)
@@ -267,6 +329,16 @@ class Prop(object):
         for k, v in fi["video_parameters"].items():
             vp[k] = type(vp[k])(v) if k in vp else v
         pcm = PictureCodingModes(fi["pcm"])
+        if fi["kind"] == "directories":
+            import random
+            why = None
+            r2 = random.Random(0)
+            for _ in range(400):
+                why = violates_dirs(r2)
+                if why:
+                    break
+            print("replay (directory mode, fresh draws) ->", why or "property holds")
+            return 1 if why else 0
         if fi["kind"] == "roundtrip":
             why = violates_roundtrip(vp, pcm, fi["picture"])
         else:
